@@ -17,7 +17,7 @@ Tr == Traces[tid]
 Script(e) == [i \in 1..Len(e.script) |-> [kind |-> e.script[i].kind, obj |-> e.script[i].obj, feas |-> e.script[i].feas, fail |-> e.script[i].fail]]
 TInit == /\ tid \in 1..Len(Traces) /\ l = 2 /\ verdict = "ok"
          /\ cfg = [script |-> Script(Tr[1]), abortAt |-> Tr[1].abortAt, maxfun |-> Tr[1].maxfun, runs |-> Tr[1].runs,
-                   nA |-> Tr[1].nA, nR |-> Tr[1].nR, lateR |-> Tr[1].lateR, redir |-> Tr[1].redir]
+                   nA |-> Tr[1].nA, nR |-> Tr[1].nR, lateR |-> Tr[1].lateR, redir |-> Tr[1].redir, tolnone |-> Tr[1].tolnone]
          /\ s = S0 /\ log = <<>>
 
 Stop(v) == verdict' = v /\ UNCHANGED <<tid, l>> /\ UNCHANGED bvars
